@@ -2,6 +2,7 @@ package main
 
 import (
 	"fmt"
+	"math/big"
 	"strings"
 	"sort"
 	"go/token"
@@ -150,7 +151,10 @@ func (e *Enc) instr(in ssa.Instruction, st *State) {
 				arrSorts["G|reached|"+key] = "Bool"
 				st.m["G|reached|"+key] = "true"
 			}
-			for _, a := range e.con.Asserts {
+			for ai, a := range e.con.Asserts {
+				if a.Callee == site && (a.Ordinal == ord || a.Ordinal < 0) {
+					e.assertHit[ai] = true
+				}
 				if a.Callee == site && (a.Ordinal == ord || a.Ordinal < 0) && e.active(a.C) {
 					vars := map[string]*Val{"value": e.val(in.Val), "target": e.val(fa.X)}
 					for k, v := range e.params {
@@ -255,6 +259,13 @@ func (e *Enc) instr(in ssa.Instruction, st *State) {
 	case *ssa.Lookup:
 		e.lookup(in, st)
 	case *ssa.Index:
+		if isString(in.X.Type()) {
+			x := e.val(in.X)
+			i := e.val(in.Index).c[0]
+			e.oblige("index", exprText(in.X)+"["+exprText(in.Index)+"]", in.Pos(), and(app("<=", "0", i), app("<", i, app("slen", x.c[0]))))
+			e.set(in, &Val{typ: in.Type(), c: []string{app("sat", x.c[0], i)}})
+			break
+		}
 		e.unsupported("Index on array value")
 		e.set(in, e.freshVal("idx", in.Type()))
 	case *ssa.MapUpdate:
@@ -360,6 +371,8 @@ func (e *Enc) unop(in *ssa.UnOp, st *State) {
 	case token.SUB:
 		if isInt(in.Type()) {
 			e.set(in, &Val{typ: in.Type(), c: []string{app("-", x.c[0])}})
+		} else if isFloat(in.Type()) {
+			e.set(in, &Val{typ: in.Type(), c: []string{app("fp.neg", x.c[0])}})
 		} else {
 			e.set(in, e.freshVal("neg", in.Type()))
 		}
@@ -404,9 +417,40 @@ func (e *Enc) binop(in *ssa.BinOp) {
 			b(app(">", x.c[0], y.c[0]))
 		case token.GEQ:
 			b(app(">=", x.c[0], y.c[0]))
-		default: // bit operations: uninterpreted in integer mode
-			v := e.freshVal("bitop", in.Type())
-			e.set(in, v)
+		default:
+			// bit operations in integer mode: exact for the shapes that occur on non-negative operands with constant
+			// masks/shifts (c>>4, c&15, x<<k); anything else is an unconstrained value of the result type
+			if r, ok := e.constBitOp(in, x, y); ok {
+				b(r)
+			} else {
+				v := e.freshVal("bitop", in.Type())
+				e.set(in, v)
+			}
+		}
+	case isFloat(t):
+		switch in.Op {
+		case token.EQL:
+			b(app("fp.eq", x.c[0], y.c[0]))
+		case token.NEQ:
+			b(not(app("fp.eq", x.c[0], y.c[0])))
+		case token.LSS:
+			b(app("fp.lt", x.c[0], y.c[0]))
+		case token.LEQ:
+			b(app("fp.leq", x.c[0], y.c[0]))
+		case token.GTR:
+			b(app("fp.gt", x.c[0], y.c[0]))
+		case token.GEQ:
+			b(app("fp.geq", x.c[0], y.c[0]))
+		case token.ADD:
+			b(app("fp.add", "RNE", x.c[0], y.c[0]))
+		case token.SUB:
+			b(app("fp.sub", "RNE", x.c[0], y.c[0]))
+		case token.MUL:
+			b(app("fp.mul", "RNE", x.c[0], y.c[0]))
+		case token.QUO:
+			b(app("fp.div", "RNE", x.c[0], y.c[0]))
+		default:
+			e.set(in, e.freshVal("fbinop", in.Type()))
 		}
 	case isString(t):
 		switch in.Op {
@@ -485,6 +529,20 @@ func (e *Enc) convert(in *ssa.Convert, st *State) {
 	x := e.val(in.X)
 	from, to := in.X.Type(), in.Type()
 	switch {
+	case isFloat(from) && isFloat(to):
+		if leafSortOf(from) == leafSortOf(to) {
+			e.set(in, &Val{typ: to, c: x.c})
+		} else if leafSortOf(to) == fp64 {
+			e.set(in, &Val{typ: to, c: []string{app("(_ to_fp 11 53)", "RNE", x.c[0])}})
+		} else {
+			e.set(in, &Val{typ: to, c: []string{app("(_ to_fp 8 24)", "RNE", x.c[0])}})
+		}
+	case isInt(from) && isFloat(to):
+		op := "(_ to_fp 11 53)"
+		if leafSortOf(to) == fp32 {
+			op = "(_ to_fp 8 24)"
+		}
+		e.set(in, &Val{typ: to, c: []string{app(op, "RNE", app("to_real", x.c[0]))}})
 	case isInt(from) && isInt(to):
 		lo, hi := intRange(to.Underlying().(*types.Basic))
 		flo, fhi := intRange(from.Underlying().(*types.Basic))
@@ -801,4 +859,45 @@ func leafSortOf(t types.Type) string {
 func isUnsigned(t types.Type) bool {
 	b, ok := t.Underlying().(*types.Basic)
 	return ok && b.Info()&types.IsUnsigned != 0
+}
+
+func constIntOf(v ssa.Value) (int64, bool) {
+	c, ok := v.(*ssa.Const)
+	if !ok || c.Value == nil {
+		return 0, false
+	}
+	return c.Int64(), true
+}
+
+func (e *Enc) constBitOp(in *ssa.BinOp, x, y *Val) (string, bool) {
+	if !isUnsigned(in.X.Type()) {
+		return "", false
+	}
+	k, ok := constIntOf(in.Y)
+	if !ok || k < 0 {
+		return "", false
+	}
+	pow := func(n int64) string { return new(big.Int).Lsh(big.NewInt(1), uint(n)).String() }
+	switch in.Op {
+	case token.SHR:
+		if k > 63 {
+			return "0", true
+		}
+		return app("div", x.c[0], pow(k)), true
+	case token.AND:
+		// mask 2^n - 1
+		for n := int64(1); n <= 63; n++ {
+			if k == (int64(1)<<uint(n))-1 {
+				return app("mod", x.c[0], pow(n)), true
+			}
+		}
+	case token.SHL:
+		if k > 63 {
+			return "", false
+		}
+		lo, hi := intRange(in.Type().Underlying().(*types.Basic))
+		_ = lo
+		return app("mod", app("*", x.c[0], pow(k)), app("+", hi, "1")), true
+	}
+	return "", false
 }
